@@ -462,36 +462,74 @@ func RunRapid(c *core.Ctx) {
 	}
 
 	// ------------------------------------------------------------------ RAPID.fresh
-	// every draw fills a message created inside the generator function handed to rapid.Custom (a message created
-	// outside it would be shared by all draws: lists, maps and FieldMask paths accumulate, every draw returns the same pointer)
+	// every draw fills a message of its own: wherever the recursion is entered from outside (a call of setFields in a
+	// function that is not one of the generator methods), the message handed over is created by New() inside the
+	// innermost function around that call - the closure rapid runs per draw, or a helper that is called per draw.
+	// A message created further out would be shared by all draws (lists, maps, FieldMask paths accumulate).
 	{
-		var fd *ast.FuncDecl
+		inner := map[string]bool{"setFields": true, "setFieldValue": true, "genAny": true, "genScalarFieldValue": true, "genTimestamp": true, "genDuration": true, "genFieldMask": true, "setSecondsNanosFields": true}
+		// the recursive part grows by every function that is called only from inside it
+		callers := map[string]map[string]bool{}
 		for _, file := range pkg.Syntax {
 			for _, d := range file.Decls {
-				if f, ok := d.(*ast.FuncDecl); ok && f.Name.Name == "MessageGenerator" && f.Body != nil {
-					fd = f
+				fd, ok := d.(*ast.FuncDecl)
+				if !ok || fd.Body == nil {
+					continue
+				}
+				ast.Inspect(fd.Body, func(x ast.Node) bool {
+					if call, ok := x.(*ast.CallExpr); ok {
+						if f, ok := core.CalleeObj(pkg.TypesInfo, call).(*types.Func); ok && f.Pkg() == pkg.Types {
+							if callers[f.Name()] == nil {
+								callers[f.Name()] = map[string]bool{}
+							}
+							callers[f.Name()][fd.Name.Name] = true
+						}
+					}
+					return true
+				})
+			}
+		}
+		for changed := true; changed; {
+			changed = false
+			for fn, cs := range callers {
+				if inner[fn] || len(cs) == 0 {
+					continue
+				}
+				all := true
+				for cl := range cs {
+					if !inner[cl] {
+						all = false
+					}
+				}
+				if all {
+					inner[fn] = true
+					changed = true
 				}
 			}
 		}
-		if fd == nil {
-			c.Undec("RAPID.fresh", "rapidproto.MessageGenerator", "declaration not found", "", src)
-		} else {
-			n := 0
-			ast.Inspect(fd.Body, func(x ast.Node) bool {
-				ce, ok := x.(*ast.CallExpr)
-				if !ok {
-					return true
+		n := 0
+		for _, file := range pkg.Syntax {
+			for _, d := range file.Decls {
+				fd, ok := d.(*ast.FuncDecl)
+				if !ok || fd.Body == nil {
+					continue
 				}
-				if core.QualName(core.CalleeObj(pkg.TypesInfo, ce)) != "pgregory.net/rapid.Custom" || len(ce.Args) != 1 {
-					return true
+				// helpers split off the generator methods (setListField, ...) recurse with the message they were given
+				if inner[fd.Name.Name] {
+					continue
 				}
-				fl, ok := ast.Unparen(ce.Args[0]).(*ast.FuncLit)
-				if !ok {
-					c.Undec("RAPID.fresh", "rapidproto.MessageGenerator rapid.Custom argument", "the generator function is not a function literal", pos(ce.Pos()), src)
-					return true
+				// an unexported function nobody calls (left behind by the helper normalisation) cannot be entered
+				if !ast.IsExported(fd.Name.Name) && len(callers[fd.Name.Name]) == 0 {
+					continue
 				}
-				ast.Inspect(fl.Body, func(y ast.Node) bool {
-					call, ok := y.(*ast.CallExpr)
+				var stack []ast.Node
+				ast.Inspect(fd, func(x ast.Node) bool {
+					if x == nil {
+						stack = stack[:len(stack)-1]
+						return true
+					}
+					stack = append(stack, x)
+					call, ok := x.(*ast.CallExpr)
 					if !ok {
 						return true
 					}
@@ -500,14 +538,24 @@ func RunRapid(c *core.Ctx) {
 						return true
 					}
 					n++
-					con := fmt.Sprintf("rapidproto.MessageGenerator setFields#%d message", n)
+					con := fmt.Sprintf("rapidproto.%s setFields#%d message", fd.Name.Name, n)
+					// innermost function around the call
+					var body *ast.BlockStmt
+					for k := len(stack) - 1; k >= 0 && body == nil; k-- {
+						switch t := stack[k].(type) {
+						case *ast.FuncLit:
+							body = t.Body
+						case *ast.FuncDecl:
+							body = t.Body
+						}
+					}
 					id, ok := ast.Unparen(call.Args[2]).(*ast.Ident)
-					if !ok {
+					if !ok || body == nil {
 						c.Undec("RAPID.fresh", con, "message argument is not a local variable", pos(call.Pos()), src)
 						return true
 					}
 					obj := pkg.TypesInfo.ObjectOf(id)
-					inside := obj != nil && obj.Pos() >= fl.Body.Pos() && obj.Pos() < fl.Body.End()
+					inside := obj != nil && obj.Pos() >= body.Pos() && obj.Pos() < body.End()
 					fromNew := false
 					writes := 0
 					ast.Inspect(fd.Body, func(z ast.Node) bool {
@@ -518,7 +566,7 @@ func RunRapid(c *core.Ctx) {
 									if len(as.Rhs) == len(as.Lhs) {
 										if rc, ok := ast.Unparen(as.Rhs[i]).(*ast.CallExpr); ok {
 											if sel, ok := rc.Fun.(*ast.SelectorExpr); ok && sel.Sel.Name == "New" && len(rc.Args) == 0 {
-												fromNew = as.Pos() >= fl.Body.Pos() && as.Pos() < fl.Body.End()
+												fromNew = as.Pos() >= body.Pos() && as.Pos() < body.End()
 											}
 										}
 									}
@@ -527,15 +575,58 @@ func RunRapid(c *core.Ctx) {
 						}
 						return true
 					})
-					c.Check(inside && fromNew && writes == 1, "RAPID.fresh", con, "the message is created by New() inside the function run for each draw",
-						"the message that setFields fills is not created by a New() call inside the function rapid runs for each draw: all draws share (and keep appending to) one message", pos(call.Pos()), src)
+					c.Check(inside && fromNew && writes == 1, "RAPID.fresh", con, "the message is created by New() inside the function that runs for each draw",
+						"the message that setFields fills is not created by a New() call inside the innermost function around the call: all draws share (and keep appending to) one message", pos(call.Pos()), src)
 					return true
 				})
-				return true
-			})
-			if n == 0 {
-				c.Undec("RAPID.fresh", "rapidproto.MessageGenerator", "no setFields call inside a rapid.Custom generator function found", pos(fd.Pos()), src)
 			}
+		}
+		if n == 0 {
+			c.Undec("RAPID.fresh", "rapidproto", "no entry call of setFields found outside the generator methods", "", src)
+		}
+	}
+
+	// ------------------------------------------------------------------ RAPID.any (results)
+	// genAny reports whether it could produce a value (it cannot without AnyTypeURLs): no caller may drop that answer,
+	// and setFields must hand it on, otherwise an empty Any (no type URL) stays in the message. A list element whose
+	// generation failed is removed again: Truncate(Len()-1), not Truncate(i) (the list holds only the successes so far).
+	{
+		nAny := 0
+		for _, f := range fns {
+			allInstrs(f, func(b *ssa.BasicBlock, in ssa.Instruction) {
+				call, ok := in.(*ssa.Call)
+				if !ok || call.Call.StaticCallee() == nil {
+					return
+				}
+				switch call.Call.StaticCallee().Name() {
+				case "genAny":
+					nAny++
+					refs := call.Referrers()
+					c.Check(refs != nil && len(*refs) > 0, "RAPID.any", fmt.Sprintf("rapidproto.%s genAny result#%d", f.Name(), nAny),
+						"the result of genAny is used", "the result of genAny is discarded: when no value can be generated the field keeps an empty Any with an unresolvable type URL", pos(call.Pos()), src)
+				}
+			})
+		}
+		// Truncate after a failed element
+		if f := byName["setFieldValue"]; f != nil {
+			nTr := 0
+			allInstrs(f, func(b *ssa.BasicBlock, in ssa.Instruction) {
+				ci, ok := in.(ssa.CallInstruction)
+				if !ok || !ci.Common().IsInvoke() || ci.Common().Method.Name() != "Truncate" || len(ci.Common().Args) != 1 {
+					return
+				}
+				nTr++
+				okT := false
+				if bo, ok := ci.Common().Args[0].(*ssa.BinOp); ok && bo.Op == token.SUB {
+					if k, ok := bo.Y.(*ssa.Const); ok && k.Value != nil && k.Int64() == 1 {
+						if lc, ok := bo.X.(*ssa.Call); ok && lc.Call.IsInvoke() && lc.Call.Method.Name() == "Len" && lc.Call.Value == ci.Common().Value {
+							okT = true
+						}
+					}
+				}
+				c.Check(okT, "RAPID.any", fmt.Sprintf("rapidproto.setFieldValue Truncate#%d", nTr), "a failed element is removed with Truncate(list.Len()-1)",
+					"the element whose generation failed is not removed: Truncate is not called with list.Len()-1 (Truncate(i) keeps the failed element for every i > 0)", pos(in.Pos()), src)
+			})
 		}
 	}
 
@@ -732,8 +823,45 @@ func RunRapid(c *core.Ctx) {
 				}
 			}
 		})
+		// or the consultation sits in a helper of the package (a function that makes the dynamic mapper call): then
+		// the draws must come after the call of that helper
+		var helperCall *ssa.BasicBlock
+		if rangeNext == nil {
+			allInstrs(f, func(b *ssa.BasicBlock, in ssa.Instruction) {
+				call, ok := in.(*ssa.Call)
+				if !ok || call.Call.StaticCallee() == nil || call.Call.StaticCallee().Pkg != sp {
+					return
+				}
+				dyn := false
+				allInstrs(call.Call.StaticCallee(), func(_ *ssa.BasicBlock, in2 ssa.Instruction) {
+					if c2, ok := in2.(*ssa.Call); ok {
+						if _, isParamFn := c2.Call.Value.(*ssa.UnOp); isParamFn && c2.Call.StaticCallee() == nil && !c2.Call.IsInvoke() {
+							dyn = true
+						}
+					}
+				})
+				if dyn && helperCall == nil {
+					helperCall = b
+				}
+			})
+		}
+		if helperCall != nil {
+			nD, okH := 0, true
+			allInstrs(f, func(b *ssa.BasicBlock, in ssa.Instruction) {
+				if call, ok := in.(*ssa.Call); ok && call.Call.StaticCallee() != nil && strings.HasPrefix(call.Call.StaticCallee().Name(), "ValueOf") {
+					nD++
+					if !helperCall.Dominates(b) || b == helperCall {
+						okH = false
+					}
+				}
+			})
+			c.Check(okH && nD >= 10, "RAPID.opts", "rapidproto.genScalarFieldValue field mappers first", fmt.Sprintf("all %d per-kind draws come after the call of the field-mapper helper", nD), "per-kind draws are not preceded by the field-mapper consultation", pos(f.Pos()), src)
+		}
 		okFM := rangeNext != nil
 		nDraw := 0
+		if helperCall != nil {
+			okFM = false
+		}
 		if okFM {
 			allInstrs(f, func(b *ssa.BasicBlock, in ssa.Instruction) {
 				if call, ok := in.(*ssa.Call); ok && call.Call.StaticCallee() != nil && strings.HasPrefix(call.Call.StaticCallee().Name(), "ValueOf") {
@@ -746,7 +874,9 @@ func RunRapid(c *core.Ctx) {
 				}
 			})
 		}
-		c.Check(okFM && nDraw >= 10, "RAPID.opts", "rapidproto.genScalarFieldValue field mappers first", fmt.Sprintf("all %d per-kind draws come after the FieldMaps loop", nDraw), "per-kind draws are not preceded by the FieldMaps loop", pos(f.Pos()), src)
+		if helperCall == nil {
+			c.Check(okFM && nDraw >= 10, "RAPID.opts", "rapidproto.genScalarFieldValue field mappers first", fmt.Sprintf("all %d per-kind draws come after the FieldMaps loop", nDraw), "per-kind draws are not preceded by the FieldMaps loop", pos(f.Pos()), src)
+		}
 	}
 
 	// ------------------------------------------------------------------ RAPID.utf8
